@@ -7,7 +7,7 @@ From Coq Require Import List Arith ZArith Bool.
 Import ListNotations.
 From Acts.Gen Require Import GenState.
 From Acts.Model Require Import Engine.
-From Acts.Proofs Require Import EngineLemmas LogInv C02Ops FinalProofs.
+From Acts.Proofs Require Import EngineLemmas SeqLinks LogInv C02Ops FinalProofs.
 
 Theorem C16_one_node_per_generated_act :
   forall e pn acts sq, length (nodes (build_acts e pn acts sq)) = length (nodes e) + length acts.
@@ -27,6 +27,16 @@ Example C16_example :
   length (filter (fun t => is (t_state t) SInterrupt) (tasks e)) = 3.
 Proof. vm_compute. reflexivity. Qed.
 
+(* for every engine state: a sequence generator makes its first act a child of the generating node and chains the
+   others by `next` links in list order, one node each *)
+Theorem C16_sequence_chained_in_list_order :
+  forall e pn sp rest, pn < length (nodes e) ->
+    let e' := build_acts e pn (sp :: rest) true in
+    let len := length (nodes e) in
+    normal_children (nd e' pn) = normal_children (nd e pn) ++ [len] /\
+    (forall k, k < length rest -> n_next (nd e' (len + k)) = Some (len + S k)) /\
+    length (nodes e') = len + S (length rest).
+Proof. exact sequence_links. Qed.
 (* a sequence generator chains its groups by `next` links (build_acts with sq = true); in every run a group created
    through such a link is created when the group before it is terminal, so the groups open one after another *)
 Theorem C16_sequence_groups_one_after_another :
@@ -51,3 +61,4 @@ Proof. vm_compute. auto. Qed.
 Print Assumptions C16_one_node_per_generated_act.
 Print Assumptions C16_parallel_children_all_at_once.
 Print Assumptions C16_sequence_groups_one_after_another.
+Print Assumptions C16_sequence_chained_in_list_order.
